@@ -471,6 +471,24 @@ func RunC20(c *Ctx) {
 		}
 		CheckC20Text(c, buf, pairs)
 	}
+	// ranges that cross a digit-count boundary of the line numbers (9|10, 99|100, 999|1000, 9999|10000)
+	if c.Shard == 0 {
+		buf := strings.Repeat("ab\n", 10010)
+		var pairs [][2]int
+		for _, b := range []int{9, 10, 99, 100, 999, 1000, 9999, 10000} {
+			for _, d := range []int{-2, -1, 0, 1} {
+				for _, span := range []int{1, 2, 5} {
+					l := b + d
+					if l < 0 {
+						continue
+					}
+					pairs = append(pairs, [2]int{l * 3, (l+span)*3 + 1})
+				}
+			}
+		}
+		CheckC20Text(c, buf, pairs)
+		c.Count("digit_boundary_ranges", int64(len(pairs)))
+	}
 	// every error produced by error workloads
 	errs := 0
 	errorWorkload(c, c.Pick(30_000, 600_000), func(entry, input string) {
